@@ -74,6 +74,7 @@ struct reduction_tree_node : public tree_node {
     {}
 
     void join(task_group_context* context) {
+        __TBB_VERIF_POINT(vp_reduce_join, this, has_right_zombie);
         if (has_right_zombie && !context->is_group_execution_cancelled())
             left_body.join(*zombie_space.begin());
     }
@@ -168,6 +169,7 @@ private:
     void offer_work_impl(execution_data& ed, Args&&... args) {
         small_object_allocator alloc{};
         // New right child
+        __TBB_VERIF_POINT(vp_part_offer_work, this, 1);
         auto right_child = alloc.new_object<start_reduce>(ed, std::forward<Args>(args)..., alloc);
 
         // New root node as a continuation and ref count. Left and right child attach to the new parent.
@@ -208,6 +210,7 @@ task* start_reduce<Range,Body,Partitioner>::execute(execution_data& ed) {
     __TBB_ASSERT(my_parent, nullptr);
     if( is_right_child && my_parent->m_ref_count.load(std::memory_order_acquire) == 2 ) {
         tree_node_type* parent_ptr = static_cast<tree_node_type*>(my_parent);
+        __TBB_VERIF_POINT(vp_reduce_split_body, this, 0);
         my_body = static_cast<Body*>(new( parent_ptr->zombie_space.begin() ) Body(*my_body, split()));
         parent_ptr->has_right_zombie = true;
     }
@@ -240,6 +243,7 @@ struct deterministic_reduction_tree_node : public tree_node {
     {}
 
     void join(task_group_context* context) {
+        __TBB_VERIF_POINT(vp_reduce_join, this, 2);
         if (!context->is_group_execution_cancelled())
             left_body.join(right_body);
     }
@@ -311,6 +315,7 @@ private:
         auto new_tree_node = alloc.new_object<tree_node_type>(ed, my_parent, 2, my_body, alloc);
 
         // New right child
+        __TBB_VERIF_POINT(vp_part_offer_work, this, 2);
         auto right_child = alloc.new_object<start_deterministic_reduce>(ed, std::forward<Args>(args)..., new_tree_node->right_body, alloc);
 
         right_child->my_parent = my_parent = new_tree_node;
